@@ -270,7 +270,7 @@ func LiveMPD(a *asset, mpdName string, cfg *ResponseConfig, drmCfg *drm.DrmConfi
 				return nil, fmt.Errorf("adjustASForTimelineTime: %w", err)
 			}
 			if asIdx == 0 {
-				mpd.PublishTime = m.ConvertToDateTime(calcPublishTime(cfg, se.lsi))
+				mpd.PublishTime = m.ConvertToDateTimeMS(int64(math.Round(calcPublishTime(cfg, se.lsi) * 1000)))
 			}
 		case timeLineNumber:
 			err := adjustAdaptationSetForTimelineNr(se, as)
@@ -283,7 +283,7 @@ func LiveMPD(a *asset, mpdName string, cfg *ResponseConfig, drmCfg *drm.DrmConfi
 				*as.SegmentTemplate.StartNumber += uint32(cfg.getStartNr())
 			}
 			if asIdx == 0 {
-				mpd.PublishTime = m.ConvertToDateTime(calcPublishTime(cfg, se.lsi))
+				mpd.PublishTime = m.ConvertToDateTimeMS(int64(math.Round(calcPublishTime(cfg, se.lsi) * 1000)))
 			}
 		case segmentNumber:
 			err := adjustAdaptationSetForSegmentNumber(cfg, a, as)
